@@ -826,4 +826,48 @@ def IvOp.exact : IvOp → Rat → Rat → Rat
 
 end Interval
 
+/-! ## `Linear_Form<Interval>`: `operator+`, `operator-`, `operator*(C, f)` (Linear_Form_templates.hh)
+
+A linear form is the list of its interval coefficients, inhomogeneous term first. -/
+section LinearForm
+
+/-- `operator+(f1, f2)`: the tail of the longer form is copied, the common part is `r[i] = f1[i]; r[i] += f2[i]` -/
+def lfAdd (p : Policy) (R : Rounding) : List Iv → List Iv → List Iv
+  | [], g => g
+  | f, [] => f
+  | x :: f, y :: g => addAssign p R x y :: lfAdd p R f g
+
+/-- `operator-(f1, f2)`: the tail of a longer `f1` is copied, the tail of a longer `f2` is negated -/
+def lfSub (p : Policy) (R : Rounding) : List Iv → List Iv → List Iv
+  | [], g => g.map (negAssign p R)
+  | f, [] => f
+  | x :: f, y :: g => subAssign p R x y :: lfSub p R f g
+
+/-- `operator*(n, f)`: `r[i] *= n` -/
+def lfScale (d3 : Bool) (p : Policy) (R : Rounding) (n : Iv) (f : List Iv) : List Iv :=
+  f.map (fun x => mulAssign d3 p R x n)
+
+/-- the corresponding operations on concrete coefficient vectors -/
+def vecAdd : List Rat → List Rat → List Rat
+  | [], d => d
+  | c, [] => c
+  | a :: c, b :: d => (a + b) :: vecAdd c d
+
+def vecSub : List Rat → List Rat → List Rat
+  | [], d => d.map (fun b => -b)
+  | c, [] => c
+  | a :: c, b :: d => (a - b) :: vecSub c d
+
+/-- value of a concrete linear form `c₀ + Σ cᵢ·ρᵢ₋₁` on a store -/
+def vecEval : List Rat → List Rat → Rat
+  | [], _ => 0
+  | c0 :: cs, rho => c0 + dotR cs rho
+where
+  dotR : List Rat → List Rat → Rat
+    | [], _ => 0
+    | _, [] => 0
+    | c :: cs, r :: rs => c * r + dotR cs rs
+
+end LinearForm
+
 end PPLV.Interval
